@@ -52,8 +52,33 @@ type Input struct {
 	Ms   int      `json:"ms"`
 	How  string   `json:"how"`
 	Args []string `json:"args"`
+	Uri2 []string `json:"uri2"` // URI argument of a meta call / kill reason / testament topic
+	F    Filter   `json:"f"`    // get_events filters
 	O    Opts     `json:"o"`
 	Join Join     `json:"join"`
+}
+
+// Filter carries the wamp.subscription.get_events filters (0 / empty = absent;
+// times in milliseconds of the virtual clock, publications as canonical ids).
+type Filter struct {
+	Limit   int      `json:"limit"`
+	Reverse bool     `json:"reverse"`
+	FromT   int      `json:"from_t"`
+	AfterT  int      `json:"after_t"`
+	BeforeT int      `json:"before_t"`
+	UntilT  int      `json:"until_t"`
+	FromP   int      `json:"from_p"`
+	AfterP  int      `json:"after_p"`
+	BeforeP int      `json:"before_p"`
+	UntilP  int      `json:"until_p"`
+	Topic   []string `json:"topic"`
+}
+
+// HistEntry is one entry of a get_events answer.
+type HistEntry struct {
+	B int      `json:"b"`
+	V []string `json:"v"`
+	P string   `json:"p"`
 }
 
 // HistCfg is one event-history configuration entry.
@@ -104,6 +129,7 @@ type Msg struct {
 	Pd  [][2]string `json:"pd"`
 	Ids []int       `json:"ids"`
 	P   string      `json:"p"`
+	Hl  []HistEntry `json:"hl"`
 	T   int         `json:"t"`
 }
 
@@ -121,6 +147,7 @@ type Bind struct {
 	Reg    int    `json:"reg"`
 	Inv    int    `json:"inv"`
 	Callee string `json:"callee"`
+	Hp     []int  `json:"hp"` // publication ids of a get_events answer
 }
 
 // Event is one line of the recorded trace.
